@@ -31,8 +31,14 @@ Befores == {"none", "unterminated", "badblock", "garbage", "otherok", "bomb"}
 \* root element of the same kind carrying other ID / InResponseTo / Destination / Version (a stored block with
 \* printable header octets).  Whether an input is taken raw or inflated is ONE decision, the same for the pre-decoders
 \* and for validation: such a stream is not a well-formed document, so both inflate it.
-Inputs == { x \in [kind : {"sso", "logout"}, rootsig : {"unsigned", "signed"}, var : Variants, deflate : BOOLEAN, before : Befores, rawview : BOOLEAN] :
-              x.rawview => (x.deflate /\ x.before = "none") }
+\* transport: the outer base64 is standard, lacks its padding, uses the URL-safe alphabet, or is broken into lines.  The
+\* decoders all use the standard alphabet with padding and ignore CR / LF: the first two variants are not messages at all,
+\* for any entry point (a validator that is more lenient than the pre-decoder would accept what cannot be pre-decoded)
+Transports == {"std", "nopad", "urlsafe", "lines"}
+Inputs == { x \in [kind : {"sso", "logout"}, rootsig : {"unsigned", "signed"}, var : Variants, deflate : BOOLEAN, before : Befores, rawview : BOOLEAN,
+                   transport : Transports] :
+              /\ x.rawview => (x.deflate /\ x.before = "none")
+              /\ (x.transport # "std") => (x.before = "none" /\ ~x.rawview /\ x.var.v \in {"none", "dupIssuer"}) }
 Cfgs   == [issuerCfg : BOOLEAN]
 
 \* which value the validated decode ends up with for the shadowed field
@@ -52,7 +58,7 @@ ShadowFatal(cfg, in) == \/ in.var.field \in {"Destination", "Version"}
 DecodeFails(in) == in.var.v = "foreignIssuer"
 
 ModelOut(cfg, in) ==
-   LET rej == DecodeFails(in) \/ (ValidatedTakesShadow(in) /\ ShadowFatal(cfg, in)) IN
+   LET rej == DecodeFails(in) \/ (ValidatedTakesShadow(in) /\ ShadowFatal(cfg, in)) \/ in.transport \in {"nopad", "urlsafe"} IN
    [res |-> IF rej THEN "reject" ELSE "accept",
     agree |-> ValidatedTakesShadow(in) = PredecodeTakesShadow(in)]
 
